@@ -34,6 +34,10 @@ type pairCase struct {
 }
 
 func genPair(t *rapid.T) pairCase {
+	if fw.Pct(t, "foldPair", 4) {
+		a, b := gen.FoldPair(t)
+		return pairCase{A: a, B: b, CA: "str_plain", CB: "str_plain"}
+	}
 	a, ca := gen.Value(t)
 	b, cb := gen.Value(t)
 	return pairCase{A: a, B: b, CA: ca, CB: cb}
@@ -143,6 +147,14 @@ func genTriple(t *rapid.T) exprCase {
 			c, cc = val.Str(fmt.Sprintf(" %s ", a.S)), "str_int"
 		case "S":
 			c, cc = val.Str(strings.ToUpper(a.S)+" "), "str_plain"
+		}
+	}
+	if fw.Pct(t, "foldTriple", 4) {
+		a, b = gen.FoldPair(t)
+		ca, cb = "str_plain", "str_plain"
+		if fw.Pct(t, "foldC", 50) {
+			_, c = gen.FoldPair(t)
+			cc = "str_plain"
 		}
 	}
 	return exprCase{A: a, B: b, C: c, CA: ca, CB: cb, CC: cc}
